@@ -23,7 +23,7 @@ def run(tier, seed, replay_path=None):
     # concurrent form, on the side that lets the store outgrow its limit: under every schedule of two clients the accounted usage
     # does not end below the bytes stored (the step check above then bounds the stored total by limit + record)
     from . import C16
-    names = ['evicting set||delete', 'get||get (policy, expired item)', 'get||delete (policy, expired item)', 'set||get (policy)']
+    names = ['evicting set||delete'] + ([] if tier == 'quick' else ['evicting set||set']) + [ 'get||get (policy, expired item)', 'get||delete (policy, expired item)', 'set||get (policy)']
     ck.fork_map(names, lambda c, name: C16.run_item(c, ('policy', name), tier))
     return ck.finish()
 
